@@ -109,6 +109,10 @@ def main():
                 r = 'raise:' + type(e).__module__ + '.' + type(e).__qualname__
             os.write(1, ('GET %s %s\n' % (meth, r)).encode())
         return
+    if os.environ.get('C08_WAIT') == '1':
+        # everything is imported: let the parent attach strace now (the start-up is not traced), then go on
+        os.write(1, b'READY\n')
+        sys.stdin.readline()
     try:
         r = s.put_chunk_noraise('a', sl, x)
         os.write(1, ('RESULT returned %s.%s %s\n' % (type(r).__module__, type(r).__qualname__,
